@@ -18,6 +18,9 @@ fn display_lines(d: &str) -> Vec<J> {
             if !g.is_empty() && g.chars().all(|c| c.is_ascii_digit()) {
                 let text = rest.trim_start_matches('│');
                 let text = text.strip_prefix(' ').unwrap_or(text);
+                // multi-line labels draw `╭─▶ `, `├─▶ `, `│ ` in front of the quoted text
+                let text = text.trim_start_matches(|c: char| "╭├╰│─▶┬┴┼".contains(c));
+                let text = if text.len() < rest.len() - 2 { text.strip_prefix(' ').unwrap_or(text) } else { text };
                 out.push(json!({"n": g.parse::<i64>().unwrap_or(-1), "text": text.trim_end()}));
             }
         }
